@@ -91,31 +91,7 @@ def hsl_core(h, s, l):
 '''
 
 
-def final_value(t):
-    """Strip the validation wrappers `cond ? raise : value`."""
-    while t[0] == "ite":
-        if t[2] == RAISE:
-            t = t[3]
-        elif t[3] == RAISE:
-            t = t[2]
-        else:
-            break
-    return t
-
-
-def raise_guards(t):
-    """Conditions under which the function raises before producing its value: [cond, ...] (as they must be FALSE for the value)."""
-    out = []
-    while t[0] == "ite":
-        if t[2] == RAISE:
-            out.append(t[1])
-            t = t[3]
-        elif t[3] == RAISE:
-            out.append(("not", t[1]))
-            t = t[2]
-        else:
-            break
-    return out
+from sa.formula import final_value, raise_guards, term  # noqa: E402
 
 
 def hex_digits_validated(ret) -> bool:
@@ -146,6 +122,24 @@ def hex_digits_validated(ret) -> bool:
     for c in raise_guards(ret):
         visit(c, False)
     return bool(ok)
+
+
+def prefix_strings(org, node, arg):
+    """The constant string(s) a startswith/endswith test compares with: a literal, a tuple of literals, or the
+    k-th column of a constant table the enclosing loop runs over."""
+    if isinstance(arg, ast.Constant) and isinstance(arg.value, str):
+        return [arg.value]
+    if isinstance(arg, ast.Tuple) and arg.elts and all(isinstance(x, ast.Constant) and isinstance(x.value, str) for x in arg.elts):
+        return [x.value for x in arg.elts]
+    if isinstance(arg, ast.Name):
+        o = org.of(node.id, arg)
+        if o[0] == "item" and o[1][0] == "elem" and o[1][1][0] == "tuple":
+            rows = o[1][1][1]
+            if all(r[0] == "tuple" and len(r[1]) > o[2] and r[1][o[2]][0] == "const" and isinstance(r[1][o[2]][1], str) for r in rows):
+                return [r[1][o[2]][1] for r in rows]
+        if o[0] == "elem" and o[1][0] == "tuple" and all(r[0] == "const" and isinstance(r[1], str) for r in o[1][1]):
+            return [r[1] for r in o[1][1]]
+    return None
 
 
 def lowered(o) -> bool:
@@ -241,8 +235,12 @@ def run(project, chk):
                 for c in ast.walk(e):
                     subj = None
                     what = None
-                    if isinstance(c, ast.Call) and isinstance(c.func, ast.Attribute) and c.func.attr in ("startswith", "endswith") and c.args and isinstance(c.args[0], ast.Constant) and any(ch.isalpha() or ch == "#" for ch in str(c.args[0].value)):
-                        subj, what = c.func.value, f".{c.func.attr}({c.args[0].value!r})"
+                    weight = 1
+                    if isinstance(c, ast.Call) and isinstance(c.func, ast.Attribute) and c.func.attr in ("startswith", "endswith") and c.args and prefix_strings(org, node, c.args[0]):
+                        strs = prefix_strings(org, node, c.args[0])
+                        if any(ch.isalpha() or ch == "#" for v in strs for ch in v):
+                            subj, what = c.func.value, f".{c.func.attr}({', '.join(repr(v) for v in strs)})"
+                            weight = len(strs)
                     elif isinstance(c, ast.Compare) and len(c.ops) == 1 and isinstance(c.ops[0], (ast.In, ast.NotIn)) and sc.resolve(c.comparators[0]) == "cm_colors.core.named_colors.CSS_NAMED_COLORS":
                         subj, what = c.left, "in CSS_NAMED_COLORS"
                     elif isinstance(c, ast.Subscript) and sc.resolve(c.value) == "cm_colors.core.named_colors.CSS_NAMED_COLORS":
@@ -251,9 +249,14 @@ def run(project, chk):
                         pat = str(c.args[0].value)
                         if "a-f" in pat and "A-F" not in pat or "A-F" in pat and "a-f" not in pat or "a-f" in pat:
                             subj, what = c.args[1], f"re.{c.func.attr}({pat!r})"
+                    elif isinstance(c, ast.Call) and isinstance(c.func, ast.Attribute) and c.func.attr in ("fullmatch", "match", "search") and isinstance(c.func.value, ast.Call) \
+                            and sc.resolve(c.func.value.func) == "re.compile" and c.func.value.args and isinstance(c.func.value.args[0], ast.Constant) and c.args:
+                        pat = str(c.func.value.args[0].value)      # a precompiled pattern (module constants are propagated by the loader)
+                        if "a-f" in pat or "A-F" in pat:
+                            subj, what = c.args[0], f"re.{c.func.attr}({pat!r})"
                     if subj is None:
                         continue
-                    n_tests += 1
+                    n_tests += weight
                     o = org.of(node.id, subj)
                     ok = lowered(o)
                     if not ok and what.startswith("re.") and "a-f" in what and "A-F" in what:
@@ -263,7 +266,7 @@ def run(project, chk):
         chk.floor(f"string dispatch tests in {fi.short}", n_tests, 6)
 
     # ---------------------------------------------------------------- N3 scalers
-    audit(project, chk, "N3", f"{PAR}._parse_number_token", REF, "number_token", Policy(), "CSS number / percentage token scaling", inline=False)
+    audit(project, chk, "N3", f"{PAR}._parse_number_token", REF, "number_token", Policy(), "CSS number / percentage token scaling")
     # rgb()/rgba() branch of parse_color_to_rgb: int(round(token)) then clamp / composite
     fi = project.func(f"{PAR}.parse_color_to_rgb")
     cfg = build_cfg(fi.node)
@@ -331,10 +334,19 @@ def run(project, chk):
     from sa.formula import Extractor, rebuild_node
     pfi = project.func(f"{PAR}.parse_color_to_rgb")
     color_param = pfi.params()[0]
-    loops = [n for n in own_nodes(pfi.node) if isinstance(n, ast.For) and isinstance(n.iter, ast.Name) and n.iter.id == color_param and isinstance(n.target, ast.Name)]
-    if len(loops) != 1:
-        raise AnalysisError(f"{pfi.short}: expected one loop over the components of the tuple input, found {len(loops)}")
-    lp = loops[0]
+    # the per-component conversion: the body of `for c in color:` (its appends read as results), or the element
+    # expression / helper of a comprehension over color
+    cands = []
+    for n in own_nodes(pfi.node):
+        if isinstance(n, ast.For) and isinstance(n.iter, ast.Name) and n.iter.id == color_param and isinstance(n.target, ast.Name):
+            cands.append(("loop", n))
+        if isinstance(n, (ast.ListComp, ast.GeneratorExp)) and len(n.generators) == 1 and isinstance(n.generators[0].iter, ast.Name) and n.generators[0].iter.id == color_param \
+                and isinstance(n.generators[0].target, ast.Name) and not n.generators[0].ifs:
+            cands.append(("comp", n))
+    if len(cands) != 1:
+        raise AnalysisError(f"{pfi.short}: expected one loop / comprehension over the components of the tuple input, found {len(cands)}")
+    kind, lp = cands[0]
+    comp_scope_fi = pfi
 
     class _AppendToReturn(ast.NodeTransformer):
         def visit_Expr(self, n):
@@ -342,15 +354,28 @@ def run(project, chk):
             if isinstance(v, ast.Call) and isinstance(v.func, ast.Attribute) and v.func.attr == "append" and len(v.args) == 1:
                 return ast.copy_location(ast.Return(value=v.args[0]), n)
             return n
-    body = [_AppendToReturn().visit(_copy.deepcopy(st)) for st in lp.body]
-    fn = ast.FunctionDef(name="component", args=ast.arguments(posonlyargs=[], args=[ast.arg(arg=lp.target.id)], kwonlyargs=[], kw_defaults=[], defaults=[]), body=body, decorator_list=[], lineno=lp.lineno, col_offset=0)
+    if kind == "loop":
+        target = lp.target.id
+        body = [_AppendToReturn().visit(_copy.deepcopy(st)) for st in lp.body]
+    else:
+        target = lp.generators[0].target.id
+        elt = lp.elt
+        callee = Scope(project, pfi).resolve_call(elt) if isinstance(elt, ast.Call) else None
+        if callee in project.funcs and len(elt.args) == 1 and not elt.keywords and isinstance(elt.args[0], ast.Name) and elt.args[0].id == target and len(project.funcs[callee].params()) >= 1:
+            comp_scope_fi = project.funcs[callee]
+            chk.saw_function(comp_scope_fi)
+            target = comp_scope_fi.params()[0]
+            body = [_copy.deepcopy(st) for st in comp_scope_fi.node.body]
+        else:
+            body = [ast.Return(value=_copy.deepcopy(elt))]
+    fn = ast.FunctionDef(name="component", args=ast.arguments(posonlyargs=[], args=[ast.arg(arg=target)], kwonlyargs=[], kw_defaults=[], defaults=[]), body=body, decorator_list=[], lineno=lp.lineno, col_offset=0)
     ast.fix_missing_locations(fn)
     try:
-        ex = Extractor(project, pfi, fn, Scope(project, pfi))
+        ex = Extractor(project, comp_scope_fi, fn, Scope(project, comp_scope_fi))
         env, comp = ex.run()
     except Unsupported as e:
         raise AnalysisError(f"ANALYSIS-INCONCLUSIVE {pfi.short}: per-component decision chain not readable ({e})")
-    cvar = ("var", lp.target.id)
+    cvar = ("var", target)
 
     def for_int(n):
         if n[0] == "call" and n[1] == "isinstance" and n[2][0] == cvar and n[2][1][0] == "op":
@@ -358,8 +383,8 @@ def run(project, chk):
             return ("lit", "int" in names or "bool" in names)
         return n
     pe = transform(comp, for_int)
-    want_a = ("ite", ("and", (("cmp", "<=", ("num", 0), cvar), ("cmp", "<=", cvar, ("num", 255)))), ("call", "int", (cvar,)), RAISE)
-    want_b = ("ite", ("and", (("cmp", "<=", ("num", 0), cvar), ("cmp", "<=", cvar, ("num", 255)))), cvar, RAISE)
+    want_a = term("int(c) if 0 <= c <= 255 else RAISE", c=cvar)
+    want_b = term("c if 0 <= c <= 255 else RAISE", c=cvar)
     chk.check(pe in (want_a, want_b), "N6", pfi.short, "per-component chain for int input", project.loc(pfi.module, lp), "an int component in 0..255 is kept as it is; any other int is rejected",
               how=f"partial evaluation for ints: {show(pe)[:120]}", message=f"for an int component the decision chain reduces to {show(pe)[:200]} instead of `0 <= c <= 255 ? int(c) : raise`: a tuple of three 8-bit ints does not parse to itself")
 
